@@ -43,17 +43,28 @@ EPS = float(np.finfo(float).eps)
 
 
 def lattice(tier):
-    return [
+    out = [
         {'node_type': nt, 'quad_type': qt, 'M': M, 'interval': [a, b]}
         for nt in NODE_TYPES
         for qt in QUAD_TYPES
         for M in range(1, MMAX[tier] + 1)
         for (a, b) in INTERVALS
     ]
+    # the same rules as held by a sweeper that was given the interval in its parameters
+    out += [
+        {'node_type': nt, 'quad_type': qt, 'M': M, 'interval': [a, b], 'via': 'sweeper'}
+        for nt in NODE_TYPES
+        for qt in QUAD_TYPES
+        for M in ((2, 3) if tier == 'quick' else (2, 3, 5, 8))
+        for (a, b) in INTERVALS
+    ]
+    return out
 
 
 def _sig(kind, case, **extra):
     s = {'kind': kind, 'node_type': case['node_type'], 'quad_type': case['quad_type'], 'M': case['M'], 'interval': list(case['interval'])}
+    if case.get('via'):
+        s['via'] = case['via']
     s.update(extra)
     return s
 
@@ -80,8 +91,22 @@ def evaluate(case):
         return r
 
     # ---- construction -------------------------------------------------------------------------------------------
+    via = case.get('via', 'CollBase')
     try:
-        coll = CollBase(M, a, b, node_type=nt, quad_type=qt)
+        if via == 'sweeper':
+            # the rule a sweeper holds when the interval is given in its parameters; judged on the interval the object reports
+            from pySDC.core.level import Level
+            from pySDC.implementations.problem_classes.TestEquation_0D import testequation0d
+            from pySDC.implementations.sweeper_classes.generic_implicit import generic_implicit
+
+            sp = {'num_nodes': M, 'quad_type': qt, 'node_type': nt, 'tleft': a, 'tright': b, 'QI': 'IE'}
+            coll = Level(problem_class=testequation0d, problem_params={}, sweeper_class=generic_implicit, sweeper_params=sp, level_params={'dt': 0.1}, level_index=0).sweep.coll
+            a, b = float(coll.tleft), float(coll.tright)
+            if not a < b:
+                fail('shape', {'tleft': a, 'tright': b})
+                return res
+        else:
+            coll = CollBase(M, a, b, node_type=nt, quad_type=qt)
     except CollocationError as e:
         res['outcome'] = 'rejected'
         res['message'] = str(e)[:160]
@@ -96,13 +121,13 @@ def evaluate(case):
     # ---- construction history: the same rule built again after every other interval of the alphabet has been built for
     # the same (family, type, M) in this process must be bitwise the same object data
     first = {k: np.array(getattr(coll, k), dtype=float, copy=True) for k in ('nodes', 'weights', 'Qmat', 'Smat', 'delta_m')}
-    for a2, b2 in INTERVALS:
+    for a2, b2 in INTERVALS if via == 'CollBase' else ():
         try:
             CollBase(M, a2, b2, node_type=nt, quad_type=qt)
         except Exception:  # noqa: BLE001  (judged where that member is the case)
             pass
     try:
-        again = CollBase(M, a, b, node_type=nt, quad_type=qt)
+        again = CollBase(M, a, b, node_type=nt, quad_type=qt) if via == 'CollBase' else coll
         changed = [k for k, v in first.items() if not np.array_equal(np.asarray(getattr(again, k), dtype=float), v)]
         changed += [k + '(first object modified)' for k, v in first.items() if not np.array_equal(np.asarray(getattr(coll, k), dtype=float), v)]
     except Exception as e:  # noqa: BLE001
